@@ -17,6 +17,44 @@ PENDING = 'check not built yet in this session; see DESIGN.md section 5 for the 
 NOT_APPLICABLE = {('C%02d' % i): PENDING for i in range(1, 21)}
 
 CHECKS = {
+    'C03': {
+        'engine': 'obligations + siblings',
+        'technique': 'sentinel typestate / statement-order obligations, AST templates for relaxation kernels and efficiency formulas, statement-level clone comparison of private vs public distance routines',
+        'text': 'Only the shape-level part is decided: the 0 -> inf -> diagonal-reset order after each search and where reachability flags come from; initial inf '
+                'off the diagonal for the label-correcting routines; operands, diagonal exclusion and n^2-n divisor of the global efficiencies, means over the '
+                'retained entries in charpath; the BFS/Dijkstra/Floyd relaxation kernels (add n to newly reached pairs only, keep the minimum, strict '
+                'comparison, hops on strict improvement); private distance routines of efficiency_* agree with distance_bin/distance_wei.',
+        'note': 'NOT decided (the bulk of the property): that each algorithm yields the minimum over all paths, tie handling, agreement between the five '
+                'routines. These quantify over runtime values; a different technique family (exhaustive small-graph comparison against an oracle) is needed.',
+    },
+    'C04': {
+        'engine': 'obligations',
+        'technique': 'loop-carried flow-dependence scan over per-node loops (pinned-index analysis), who-may-call on eigendecompositions plus def-use of eigenvector selection, literal-index scan on connection-matrix axes',
+        'text': 'Three necessary conditions of equivariance on all 87 deterministic routines of the eight anchored modules: per-node loops have no flow dependence '
+                'between different nodes through an array updated in place; spectral sums use eigh and single eigenvectors are selected by the decomposition\'s '
+                'own eigenvalues; no integer literal indexes a node axis of a connection matrix.',
+        'note': 'Equivariance itself (tie-breaking in argmax/argmin, rounding, algebraic identities) is NOT decided. The Floyd-Warshall k-loop is exempted by name '
+                'with a reason. gtom violates the first condition: KNOWN-FINDING (same loop as the MATLAB original).',
+    },
+    'C10': {
+        'engine': 'valnum + siblings',
+        'technique': 'specialisation equivalence by term rewriting under the 0/1 assumption and sympy normal forms; clone and feature agreement re-used from C03/C08/C15; use-before-binarize scan',
+        'text': 'clustering_coef_wd -> _bd, transitivity_wd -> _bd, strengths -> degrees: the weighted result, rewritten with cuberoot(x)=x, (x!=0)=x, binarize(x)=x, '
+                'has the same normal form as the binary result, hence equal values on every 0/1 matrix; in/out degrees are column/row sums (equal to the undirected '
+                'degree on symmetric input); private/public distance routines are clones; Brandes and k-core siblings agree feature by feature; routines '
+                'documented to ignore weights see their argument only through binarize or a nonzero test.',
+        'note': 'NOT decided: pairs implemented by different algorithms (*_wu vs *_bu, distance_wei vs distance_bin, betweenness_wei vs betweenness_bin, '
+                'efficiency_wei vs efficiency_bin, directed vs undirected clustering/transitivity on symmetric input, assortativity).',
+    },
+    'C12': {
+        'engine': 'obligations',
+        'technique': 'statement-order and same-mask obligations in the Floyd-Warshall k-loop, slot-coverage of path retrieval, all-or-nothing update discipline of the navigation counters (AST templates + block order)',
+        'text': 'Floyd: improvement mask taken from the lengths before they are replaced; hops and next hops updated under that mask with the [i,k]/[k,j] operands; '
+                'initial hops/next hops; diagonals reset. retrieve_shortest_path: hops+1 slots, slot 0 = source, every later slot written once by following '
+                'Pmat towards the same target, empty iff hops == 0. navigation_wu: next node is a neighbour nearest to the target; the three counters advance '
+                'with the same (current, next) pair or are all set to inf; results recorded together per pair; success-ratio formula.',
+        'note': 'That following Pmat reaches the target in the reported number of hops with the reported length is NOT decided (semantic fact about the algorithm).',
+    },
     'C15': {
         'engine': 'obligations + siblings',
         'technique': 'dominance / single-exit obligations on the peeling loop, paired row/column zeroing, def-use of the degree vector, resolved callee per variant, feature agreement of the three siblings, ordering/guard rules for the coreness assignment',
